@@ -64,7 +64,7 @@ def call(fn, *a, **kw):
     under test are results to be judged, not crashes."""
     try:
         return "ok", fn(*a, **kw)
-    except (IndexError, ValueError, TypeError, AssertionError, ZeroDivisionError, OverflowError) as e:
+    except (IndexError, ValueError, TypeError, AssertionError, ZeroDivisionError, OverflowError, AttributeError) as e:
         return "exc", type(e).__name__
 
 
@@ -99,11 +99,15 @@ class Model:
             self.tile = (h, w)
             self.cls = f"{rem_cls(H, h)}/{rem_cls(W, w)}"
         else:
-            _, chy, chx = case
+            if kind == "VL":  # compact encoding of long chunk tuples: (pattern, repetitions) per axis
+                _, (py, ry), (px, rx) = case
+                chy, chx = tuple(py) * ry, tuple(px) * rx
+            else:
+                _, chy, chx = case
             self.K = "VariableSizedTiles"
             self.chy, self.chx = tuple(chy), tuple(chx)
             self.tile = None
-            u = lambda ch: "uniform" if len(set(ch)) == 1 else "varied"  # noqa: E731
+            u = lambda ch: "zero-chunk" if 0 in ch else ("uniform" if len(set(ch)) == 1 else "varied")  # noqa: E731
             self.cls = f"{u(chy)}/{u(chx)}"
         self.oy, self.ox = cum(self.chy), cum(self.chx)
         self.ny, self.nx = len(self.chy), len(self.chx)
@@ -164,6 +168,45 @@ def gen_tilings(tier):
         for chy in cc:
             for chx in cc:
                 yield ("V", chy, chx)
+        # beyond the compositions: last chunk larger than the others, interior chunk smaller than the first,
+        # single-chunk axes
+        for chy, chx in EXTRA_LAYOUTS:
+            yield ("V", chy, chx)
+            yield ("V", chx, chy)
+        # zero-length chunks (dask allows them): every tuple over {0,1,2} of length <= 3 holding a zero,
+        # against each other and against three plain layouts
+        zz = zero_layouts()
+        for chy in zz + ZERO_PLAIN:
+            for chx in zz + ZERO_PLAIN:
+                if 0 in chy or 0 in chx:
+                    yield ("V", chy, chx)
+
+    return gen
+
+
+EXTRA_LAYOUTS = (((4, 4, 4, 9), (3, 8)), ((5, 2, 5), (2, 7, 1)), ((9,), (1, 1, 1, 9)), ((4, 4, 4, 9), (4, 4, 4, 9)),
+                 ((3, 8), (8, 3)))
+ZERO_PLAIN = [(1,), (2, 1), (1, 2, 1)]
+
+
+def zero_layouts():
+    out = []
+    for n in (2, 3):
+        for t in itertools.product((0, 1, 2), repeat=n):
+            if 0 in t and sum(t) > 0:
+                out.append(t)
+    return out
+
+
+def gen_large(tier):
+    def gen():
+        yield ("VL", ((1,), 1), ((17, 60, 40), 600))  # 1800 chunks, 70 200 px: beyond int16 / uint16 offsets
+        yield ("VL", ((40, 17, 60), 600), ((1,), 1))
+        yield ("T", 1, 40000, 1, 13)  # 3077 tiles
+        yield ("VL", ((3, 1, 4), 20), ((2, 5), 25))  # 60 x 50 chunks
+        if tier != "quick":
+            yield ("VL", ((2,), 1), ((1, 0, 3, 250), 400))  # 1600 chunks with zero-length ones, 101 600 px
+            yield ("T", 70000, 2, 7, 1)
 
     return gen
 
@@ -195,6 +238,36 @@ def run_index(case):
         T3 = Tiles(wh_(W, H), wh_(m.tile[1], m.tile[0]))
         if not T3 == T or yx_of(T3.shape) != (ny, nx):
             r.fail("Tiles:shape-spelling", f"{case}: built from Shape2d differs: {T3!r} vs {T!r}")
+        encs = (("lists", lambda: Tiles([H, W], list(m.tile))),
+                ("numpy-ints", lambda: Tiles((np.int64(H), np.int32(W)), (np.int64(m.tile[0]), np.int16(m.tile[1])))))
+    else:
+        encs = (("lists", lambda: VariableSizedTiles((list(m.chy), list(m.chx)))),
+                ("list-of-lists", lambda: VariableSizedTiles([list(m.chy), list(m.chx)])),
+                ("numpy-arrays", lambda: VariableSizedTiles((np.array(m.chy, dtype="int64"), np.array(m.chx)))),
+                ("numpy-ints", lambda: VariableSizedTiles((tuple(map(np.int64, m.chy)), tuple(map(np.int16, m.chx))))),
+                ("roi_tiles-lists", lambda: roi_tiles((H, W), [list(m.chy), list(m.chx)])))
+    # the same tiling given in another encoding is the same tiling
+    for ename, mk in encs:
+        st, Te = call(mk)
+        if st != "ok":
+            r.fail(f"{K}:encoding:{ename}:raises", f"{case}: construction from {ename} raised {Te}")
+            continue
+        st, che = call(lambda: Te.chunks)  # noqa: B023
+        if not (Te == T and T == Te) or yx_of(Te.shape) != (ny, nx) or yx_of(Te.base) != (H, W) or st != "ok" \
+                or tuple(map(tuple, che)) != (m.chy, m.chx):
+            r.fail(f"{K}:encoding:{ename}:differs", f"{case}: built from {ename}: {Te!r} chunks {che} vs {T!r}")
+        elif call(Te.__getitem__, (ny - 1, 0)) != call(T.__getitem__, (ny - 1, 0)):
+            r.fail(f"{K}:encoding:{ename}:region", f"{case}: built from {ename}: last-row tile region differs")
+    # the caller's chunk lists are not modified by construction or use
+    if K != "Tiles":
+        ly, lx = list(m.chy), list(m.chx)
+        Tl = VariableSizedTiles((ly, lx))
+        call(Tl.__getitem__, (0, 0))
+        call(Tl.crop, (slice(0, 1), slice(None)))
+        call(lambda: Tl.chunks)
+        call(Tl.locate, (H - 1, W - 1))
+        if ly != list(m.chy) or lx != list(m.chx):
+            r.fail(f"{K}:caller-chunks-modified", f"{case}: chunk lists given to the constructor became {ly}, {lx}")
 
     # every tile: region from arithmetic, painted cover, per-tile shape, all index spellings
     cover = np.zeros((H, W), dtype="int32")
@@ -208,10 +281,13 @@ def run_index(case):
                 ("neg", (rr - ny, cc - nx)),
                 ("mixed", (rr, cc - nx)),
                 ("Index2d", ixy_(cc, rr)),
+                ("numpy-int", (np.int64(rr), np.int32(cc - nx))),
             )
             for form, idx in forms:
                 st, got = call(T.__getitem__, idx)
-                if st != "ok":
+                if form == "numpy-int" and (st != "ok" or not same_roi(got, want)):
+                    r.fail(f"{K}[r,c]:numpy-int-index", f"{case}: [{idx!r}] -> {got}; want {want} as for python ints")
+                elif st != "ok":
                     r.fail(f"{K}[r,c]:raises:{form}:{pc}", f"{case}: [{idx}] raised {got}")
                 elif not same_roi(got, want):
                     r.fail(f"{K}[r,c]:region:{form}:{pc}", f"{case}: [{idx}] -> {got} want {want}")
@@ -222,7 +298,7 @@ def run_index(case):
                         cover[got] += 1
                         owner[got] = rr * nx + cc
             wshape = (m.chy[rr], m.chx[cc])
-            for form, idx in (("pos", (rr, cc)), ("Index2d", iyx_(rr, cc))):
+            for form, idx in (("pos", (rr, cc)), ("Index2d", iyx_(rr, cc)), ("numpy-int", (np.int64(rr), np.int32(cc)))):
                 st, got = call(T.tile_shape, idx)
                 if st != "ok" or yx_of(got) != wshape:
                     r.fail(f"{K}.tile_shape:{form}:{pc}", f"{case}: tile_shape({idx}) -> {got} want {wshape}")
@@ -250,25 +326,26 @@ def run_index(case):
     okx = [i for i in range(nx) for _ in range(m.chx[i])]
     for y in range(H):
         for x in range(W):
-            st, got = call(T.locate, (y, x))
             want = (oky[y], okx[x])
             pc = f"{axis_cls(want[0], ny)}-{axis_cls(want[1], nx)}"
-            if st != "ok" or tuple(map(int, got)) != want:
-                r.fail(f"{K}.locate:{pc}", f"{case}: locate({(y, x)}) -> {got} want {want}")
-            elif owner[y, x] != got[0] * nx + got[1]:
-                r.fail(f"{K}.locate:not-inverse:{pc}",
-                       f"{case}: locate({(y, x)}) -> {got} but that tile's region does not hold the pixel")
-    st, got = call(T.locate, ixy_(W - 1, H - 1))
-    if st != "ok" or tuple(map(int, got)) != (ny - 1, nx - 1):
-        r.fail(f"{K}.locate:Index2d", f"{case}: locate(ixy_({W - 1},{H - 1})) -> {got}")
+            for form, pix in (("tuple", (y, x)), ("Index2d", iyx_(y, x)), ("numpy-int", (np.int64(y), np.int32(x)))):
+                st, got = call(T.locate, pix)
+                fk = "" if form == "tuple" else f":{form}"
+                if st != "ok" or tuple(map(int, got)) != want:
+                    r.fail(f"{K}.locate{fk}:{pc}", f"{case}: locate({pix!r}) -> {got} want {want}")
+                elif owner[y, x] != got[0] * nx + got[1]:
+                    r.fail(f"{K}.locate{fk}:not-inverse:{pc}",
+                           f"{case}: locate({pix!r}) -> {got} but that tile's region does not hold the pixel")
     for side, pix in (("above", (-1, 0)), ("left", (0, -1)), ("below", (H, 0)), ("right", (0, W)),
-                      ("corner", (H, W))):
+                      ("corner", (H, W)), ("far-below", (H + 7, 0)), ("numpy-int-right", (np.int64(0), np.int64(W))),
+                      ("negative-wrap", (-H, -W))):
         st, got = call(T.locate, pix)
         if not (st == "exc" and got == "IndexError"):
             r.fail(f"{K}.locate:outside:{side}", f"{case}: locate({pix}) -> {got}, pixel is outside {(H, W)}")
 
     # index validation one step outside [-n, n)
-    for side, idx in (("above", (ny, 0)), ("above", (0, nx)), ("below", (-ny - 1, 0)), ("below", (0, -nx - 1))):
+    for side, idx in (("above", (ny, 0)), ("above", (0, nx)), ("below", (-ny - 1, 0)), ("below", (0, -nx - 1)),
+                      ("above", (ny + 1, 0)), ("below", (0, -nx - 2)), ("below", (-2 * ny - 1, -1))):
         st, got = call(T.tile_shape, idx)  # documented for both classes: raises IndexError
         if not (st == "exc" and got == "IndexError"):
             r.fail(f"{K}.tile_shape:out-of-range:{side}",
@@ -280,6 +357,14 @@ def run_index(case):
             r.fail(f"{K}[r,c]:out-of-range:{side}", f"{case}: [{idx}] -> {got}, expected IndexError")
         else:  # no documented contract: observation only
             obs[f"obs:{K}[r,c]:out-of-range:{side}:{'raises-' + got if st == 'exc' else 'returns'}"] = 1
+    # numpy integers as slice bounds and as the int of a crop
+    st, got = call(T.__getitem__, (slice(np.int64(0), np.int64(ny)), slice(np.int32(-nx), None)))
+    if st != "ok" or not same_roi(got, m.region(0, ny, 0, nx)):
+        r.fail(f"{K}[slices]:numpy-int-bounds", f"{case}: [np.int64(0):np.int64({ny}), np.int32({-nx}):] -> {got}")
+    st, C = call(T.crop, (np.int64(ny - 1), slice(None)))
+    if st != "ok" or tuple(map(tuple, C.chunks)) != (m.chy[-1:], m.chx):
+        r.fail(f"{K}.crop:numpy-int-index", f"{case}: crop((np.int64({ny - 1}), :)) -> {C!r}; want chunks "
+                                            f"{(m.chy[-1:], m.chx)} as for the python int")
     return r
 
 
@@ -417,6 +502,9 @@ def run_crop(case, thorough=False):
         r.counts[f"obs:{K}[{name},:]:{'raises-' + got if st == 'exc' else 'returns'}"] = 1
     r.counts["spelled_block_lookups"] = n_sp
     r.counts["spelled_crops"] = n_cr
+    # the parent tiling is what it was before all these crops (no state shared with the crops)
+    if not (T == m.build()) or tuple(map(tuple, T.chunks)) != (m.chy, m.chx):
+        r.fail(f"{K}.crop:parent-changed", f"{case}: after the crops the parent is {T!r} chunks {T.chunks}")
     return r
 
 
@@ -430,6 +518,7 @@ def judge_clip(r, m, T, sel, K):
         r.fail(f"clip_tiles:{K}:raises", f"{case}: clip_tiles({sel}) raised {res}")
         return
     C, roi, new = res
+    given, sel = sel, [(int(y), int(x)) for y, x in sel]  # the oracle works on python ints
     a, b = min(s[0] for s in sel), max(s[0] for s in sel) + 1
     c, d = min(s[1] for s in sel), max(s[1] for s in sel) + 1
     if not same_roi(roi, (slice(a, b), slice(c, d))):
@@ -437,7 +526,8 @@ def judge_clip(r, m, T, sel, K):
         return
     want_new = [(y - a, x - c) for y, x in sel]
     if [tuple(map(int, v)) for v in new] != want_new:
-        r.fail(f"clip_tiles:{K}:new-index", f"{case}: clip_tiles({sel}) idx={new} want {want_new}")
+        dup = ":duplicates" if len(set(sel)) < len(sel) else ""
+        r.fail(f"clip_tiles:{K}:new-index{dup}", f"{case}: clip_tiles({given!r}) idx={new} want {want_new}")
         return
     F = m.fresh(a, b, c, d)
     if type(C) is not type(T) or not C == F:
@@ -472,6 +562,20 @@ def run_clip(case, thorough=False):
     ny, nx = m.ny, m.nx
     judge_clip(r, m, T, [(0, 0), (0, nx - 1), (ny - 1, nx - 1), (ny - 1, 0)], K)
     judge_clip(r, m, T, [(ny - 1, nx // 2), (ny // 2, 0), (ny // 2, nx - 1)], K)
+    # duplicates stay duplicates (one new index per given index); the selection may be given in other encodings
+    corners = [(ny - 1, nx - 1), (0, 0), (ny - 1, nx - 1), (0, nx - 1), (0, 0)]
+    judge_clip(r, m, T, corners, K)
+    judge_clip(r, m, T, [tiles[-1], tiles[-1]], K)
+    for ename, sel in (("list-of-lists", [list(t) for t in corners]), ("tuple-of-tuples", tuple(corners)),
+                       ("numpy-array", np.array(corners)), ("numpy-int-tuples", [tuple(map(np.int64, t)) for t in corners])):
+        nf = len(r.fails)
+        judge_clip(r, m, T, sel, K)
+        for f in r.fails[nf:]:
+            f.key = f"{f.key}:selection-as-{ename}"
+    st, got = call(clip_tiles, T, [])  # clipping to nothing is not defined by the statement: observation
+    r.counts = {f"obs:clip_tiles:empty-selection:{'raises-' + got if st == 'exc' else 'returns'}": 1}
+    if not (T == m.build()) or tuple(map(tuple, T.chunks)) != (m.chy, m.chx):
+        r.fail(f"clip_tiles:{K}:parent-changed", f"{case}: after clipping the parent is {T!r}")
     return r
 
 
@@ -531,6 +635,17 @@ def run_gbt(case, thorough=False):
         r.fail(f"{K}.chunks", f"{case}: chunks {ch} want {(m.chy, m.chx)}")
     if type(gbt.roi).__name__ != m.K:
         r.fail(f"{K}.roi:type", f"{case}: roi is {type(gbt.roi).__name__}")
+    # same tiling from other encodings of the tile shape / chunks
+    if m.K == "Tiles":
+        encs = (("list", list(m.tile)), ("numpy-ints", (np.int64(m.tile[0]), np.int32(m.tile[1]))),
+                ("Shape2d", wh_(m.tile[1], m.tile[0])))
+    else:
+        encs = (("lists", (list(m.chy), list(m.chx))), ("list-of-lists", [list(m.chy), list(m.chx)]),
+                ("numpy-ints", (tuple(map(np.int64, m.chy)), tuple(map(np.int32, m.chx)))))
+    for ename, how in encs:
+        st, ge = call(GeoboxTiles, base, how)
+        if st != "ok" or not (ge == gbt and gbt == ge) or tuple(map(tuple, ge.chunks)) != (m.chy, m.chx):
+            r.fail(f"{K}:encoding:{ename}", f"{case}: GeoboxTiles(base, {how!r}) -> {ge!r}; differs from {gbt!r}")
 
     tiles = [(y, x) for y in range(ny) for x in range(nx)]
     for y, x in tiles:
@@ -559,6 +674,13 @@ def run_gbt(case, thorough=False):
                        f"{case}: chunk_shape({(y - ny, x - nx)}) -> {got} want {(m.chy[y], m.chx[x])}")
         elif got != "IndexError":
             r.fail(f"{K}.chunk_shape:negative-index:raises", f"{case}: chunk_shape({(y - ny, x - nx)}) raised {got}")
+        # identical request through the other entry points
+        if call(gbt.roi.__getitem__, (y, x)) != ("ok", reg) or call(gbt.roi.tile_shape, (y, x))[1] != call(
+                gbt.chunk_shape, (y, x))[1]:
+            r.fail(f"{K}.roi:entry-point-differs", f"{case}: roi[{(y, x)}] / roi.tile_shape differ from the tile")
+        st, got = call(gbt.__getitem__, (np.int64(y), np.int32(x - nx)))
+        if st != "ok" or not (got == want):
+            r.fail(f"{K}[r,c]:numpy-int-index", f"{case}: [(np.int64({y}), np.int32({x - nx}))] -> {got!r} want {want!r}")
         st, got = call(gbt.pix_bbox, (y, x))
         wb = (reg[1].start, reg[0].start, reg[1].stop, reg[0].stop)
         if st != "ok" or tuple(got.bbox) != wb or got.crs is not None:
@@ -657,6 +779,15 @@ def run_gbt(case, thorough=False):
                         fy, fx = (f, pf) if axis == 0 else (pf, f)
                         spelled(idx, fy, fx, blk)
     r.counts = {"spelled_crops": n_cr}
+    # duplicates and other encodings of the selection
+    corners = [(ny - 1, nx - 1), (0, 0), (ny - 1, nx - 1), (0, nx - 1)]
+    wantc, _ = want_gbox(0, ny, 0, nx)
+    for ename, sel in (("duplicates", corners), ("numpy-array", np.array(corners)),
+                       ("list-of-lists", [list(t) for t in corners])):
+        st, res = call(gbt.clip, sel)
+        if st != "ok" or [tuple(map(int, v)) for v in res[1]] != corners or not (res[0].base == wantc) \
+                or tuple(map(tuple, res[0].chunks)) != (m.chy, m.chx):
+            r.fail(f"{K}.clip:selection:{ename}", f"{case}: clip({sel!r}) -> {res!r}; want the whole tiling and {corners}")
 
     # clip to every ordered pair of tiles
     for t1 in tiles:
@@ -685,6 +816,10 @@ def run_gbt(case, thorough=False):
                 st, got = call(C.__getitem__, nidx)
                 if st != "ok" or not (got == w2):
                     r.fail(f"{K}.clip:rebase", f"{case}: clip({sel})[{nidx}] -> {got!r}; parent tile {(y, x)} is {w2!r}")
+    # the parent is what it was before all crops and clips
+    if not (gbt == GeoboxTiles(GeoBox((m.H, m.W), A, crs), m.tile if m.K == "Tiles" else (m.chy, m.chx))) \
+            or tuple(map(tuple, gbt.chunks)) != (m.chy, m.chx):
+        r.fail(f"{K}:parent-changed", f"{case}: after crops and clips the parent is {gbt!r} on {gbt.base!r}")
     return r
 
 
@@ -723,10 +858,13 @@ def mosaic(chy, chx, states, cfg, extremes=False):
         vals = V[sel].copy()
         if dt.kind == "f":
             vals += 0.5
+            if extremes and vals.size > 1:
+                vals.reshape(-1)[-1] = math.nan  # a nodata-like pixel INSIDE a present block stays what it is
         elif extremes:
             flat = vals.reshape(-1)
             ii = np.iinfo(dt)
-            flat[0] = ii.max
+            if flat.size:
+                flat[0] = ii.max
             if flat.size > 1:
                 flat[-1] = ii.min
         elif dt.itemsize == 1:
@@ -955,19 +1093,32 @@ def run_asm_nd(case):
     sl_all = slice(None)
     nwin = 0
 
-    def judge(tag, roi, roi_full, via_extract=False):
+    def npify(roi):
+        """same index with numpy integers for ints and slice bounds; None when nothing changes"""
+        def one(v):
+            if isinstance(v, slice):
+                return slice(*(None if b is None else np.int64(b) for b in (v.start, v.stop)))
+            return np.int32(v)
+        out = tuple(one(v) for v in roi)
+        has_int = any(not isinstance(v, slice) for v in roi)
+        has_bound = any(isinstance(v, slice) and (v.start is not None or v.stop is not None) for v in roi)
+        return (out, "numpy-int-index" if has_int else "numpy-int-bounds") if has_int or has_bound else (None, "")
+
+    def judge(tag, roi, roi_full, via_extract=False, key=None):
         nonlocal nwin
         exp = E[np_index(roi_full, axis, full)]
-        if via_extract:
-            st, got = call(asm.extract, roi=roi)
-        else:
-            st, got = call(asm.__getitem__, roi)
+        key = key or f"BlockAssembler[nd-index]:{cfg}:{tag}:{wname}"
+        # both entry points: identical arguments must give identical results
+        st, got = call(asm.extract, roi=roi)
+        if not via_extract:
+            st2, got2 = call(asm.__getitem__, roi)
+            if st2 != st or (st == "ok" and not _same_array(got, got2)) or (st != "ok" and got != got2):
+                r.fail(f"{key}:entry-points-differ", f"{case}: asm[{roi}] and asm.extract(roi={roi}) differ")
         nwin += 1
         if st == "ok" and same_values(got, exp) and got.dtype == np.dtype("float32"):
             return
         what = f"raised {got}" if st != "ok" else f"-> shape {got.shape} {got.tolist()}"
-        r.fail(f"BlockAssembler[nd-index]:{cfg}:{tag}:{wname}",
-               f"{case}: asm[{roi}] {what}; numpy mosaic window: shape {exp.shape} {exp.tolist()}")
+        r.fail(key, f"{case}: asm[{roi!r}] {what}; numpy mosaic window: shape {exp.shape} {exp.tolist()}")
 
     # full-length index: every combination of extra-axis index forms
     for pcomb in itertools.product(EXTRA_IDX, repeat=len(pre)):
@@ -975,6 +1126,9 @@ def run_asm_nd(case):
             roi = (*(v for _, v in pcomb), sy, sx, *(v for _, v in scomb))
             tag = "full:" + ",".join(k for k, _ in pcomb + scomb) if pcomb + scomb else "full"
             judge(tag, roi, roi)
+            nroi, nkey = npify(roi)
+            if nroi is not None:
+                judge(tag, nroi, roi, key=f"BlockAssembler[nd-index]:{nkey}")
     # short forms, padded on the right like numpy (a 2-tuple is the Y/X window by the class's contract)
     lead = (*(sl_all for _ in pre), sy, sx, *(sl_all for _ in suf))
     for n in range(1, nd):
@@ -988,6 +1142,7 @@ def run_asm_nd(case):
                 judge("bare", first, roi_full)
     judge("yx-pair", (sy, sx), lead)
     judge("none", None, tuple(sl_all for _ in range(nd)), via_extract=True)
+    judge("empty-tuple", (), tuple(sl_all for _ in range(nd)))  # an explicit () is everything, like numpy's X[()]
     # one index too many is an IndexError
     st, got = call(asm.__getitem__, tuple(sl_all for _ in range(nd + 1)))
     if not (st == "exc" and got == "IndexError"):
@@ -1027,7 +1182,7 @@ def run_asm_nd(case):
 
 # ---- slice: dtypes and fill values ----------------------------------------------------------
 FILLS = {
-    "None": None, "0": 0, "-1": -1, "nan": math.nan, "255": 255, "256": 256, "-32769": -32769, "1.5": 1.5,
+    "None": None, "0": 0, "0.0": 0.0, "-1": -1, "nan": math.nan, "255": 255, "256": 256, "-32769": -32769, "1.5": 1.5,
     "np.float32(nan)": np.float32("nan"), "np.uint8(7)": np.uint8(7), "np.int16(-1)": np.int16(-1),
 }
 OUT_DT = (None, "float32", "float64", "int32")
@@ -1113,9 +1268,10 @@ def run_asm_dtype(case):
 
 
 # ---- slice: call histories on ONE assembler instance (per-call state must not leak) ------------
-HREQ = ("default", "getitem", "fill-nan", "fill--1", "fill-100000", "fill0-f4", "dtype", "planes")
+HREQ = ("default", "getitem", "fill-nan", "fill--1", "fill-100000", "fill0-f4", "dtype", "planes",
+        "scribble-default", "scribble-window")  # scribble: overwrite the returned array in place afterwards
 HREQ_FILL = {"fill-nan": math.nan, "fill--1": -1, "fill-100000": 100000}
-HREQ_CORE = ("default", "getitem", "fill-nan", "fill-100000", "dtype")  # menu of the triples (quick)
+HREQ_CORE = ("default", "getitem", "fill-nan", "fill-100000", "dtype", "scribble-default")  # triples (quick)
 H_STATES2 = (  # 2 tiles: chunks ((2,), (1, 2))
     ("i2", None), ("i2", "i2"), (None, "i2"), ("u1", None), ("u1", "u1"), ("f4", None), ("f4", "f4"),
     ("u1", "i2"), ("i2", "f4"), ("u1", "f4"),
@@ -1133,6 +1289,8 @@ def gen_asm_hist(tier):
         menu3 = HREQ_CORE if tier == "quick" else HREQ
         hist += [(a, b, c) for a in menu3 for b in menu3 for c in menu3]
         scenes = [(((2,), (1, 2)), st) for st in H_STATES2] + [(((1, 2), (2, 1)), st) for st in H_STATES4]
+        # one block covering the whole mosaic (the case where handing out the block itself is tempting)
+        scenes += [(((2,), (3,)), (st,)) for st in ("i2", "f4")]
         for (chy, chx), states in scenes:
             for cfg in H_CFGS:
                 for h in hist:
@@ -1146,6 +1304,12 @@ def _do_request(name, ba, win):
         return ba.extract()
     if name == "getitem":
         return ba[win]
+    if name in ("scribble-default", "scribble-window"):
+        x = ba.extract() if name == "scribble-default" else ba[win]
+        ans = x.copy()
+        if x.flags.writeable:
+            x[...] = 77  # the caller owns the result: writing into it must not reach the assembler or the blocks
+        return ans
     if name in HREQ_FILL:
         return ba.extract(HREQ_FILL[name])
     if name == "fill0-f4":
@@ -1207,9 +1371,9 @@ def run_asm_hist(case):
                 if not (same_values(x, Edef[np_index(p, axis, full)]) and x.dtype == C):
                     return f"plane {p}: {_show(x)}"
             return None
-        if name == "default":
+        if name in ("default", "scribble-default"):
             exp, must = Edef, C
-        elif name == "getitem":
+        elif name in ("getitem", "scribble-window"):
             exp, must = Edef[np_index(win, axis, full)], C
         elif name == "fill0-f4":
             exp, must = expected_full(V, P, 0.0), np.dtype("float32")
@@ -1225,6 +1389,7 @@ def run_asm_hist(case):
     ba = BlockAssembler(blocks, (chy, chx), axis=axis)
     before = []
     changed = False
+    blocks0 = {k: v.copy() for k, v in blocks.items()}
     for name in hist:
         prev = "+".join(before) if before else "nothing"
         # history class for the finding key: the first earlier request whose fill does not fit the block dtype
@@ -1245,11 +1410,24 @@ def run_asm_hist(case):
         if why is not None and _same_answer(ans, fresh):  # a divergence from the fresh instance is already reported
             r.fail(f"BlockAssembler:history:{hk}:{name}:wrong-answer:{C.name}",
                    f"{case}: request '{name}' after [{prev}]: {why}")
+        # the answer is the caller's own array: never a view of a block (or of anything inside the assembler)
+        if name not in ("dtype", "planes", "scribble-default", "scribble-window"):
+            if any(np.shares_memory(ans, b) for b in blocks.values()) or not ans.flags.writeable:
+                r.fail(f"BlockAssembler:history:{name}:result-aliases-a-block:{C.name}",
+                       f"{case}: the array returned by '{name}' shares memory with a caller's block "
+                       f"(writeable={ans.flags.writeable})")
         before.append(name)
         if np.dtype(ba.dtype) != C and not changed:
             changed = True  # reported once; later requests are still compared with a fresh instance
             r.fail(f"BlockAssembler:history:ba.dtype-changed-by({name}):{C.name}",
                    f"{case}: after [{'+'.join(before)}] ba.dtype is {ba.dtype}, was {C}")
+    # the caller's blocks hold what they held before the history
+    for k, v in blocks.items():
+        if not np.array_equal(v, blocks0[k], equal_nan=True):
+            wr = [n for n in hist if n.startswith("scribble")]
+            r.fail(f"BlockAssembler:history:callers-block-modified:{'after-writing-into-a-result' if wr else 'by-reading'}"
+                   f":{C.name}", f"{case}: block {k} was {blocks0[k].tolist()} and is {v.tolist()} after [{'+'.join(hist)}]")
+            break
     return r
 
 
@@ -1383,6 +1561,138 @@ def run_asm_mixed(case):
     return r
 
 
+# ---- slice: the same blocks in another memory layout / container encoding ------------------------
+ENCODINGS = ("plain", "padded-view", "fortran", "neg-stride-view", "read-only", "list-chunks", "reversed-dict",
+             "numpy-int-keys")
+ENC_LAYOUTS = (((2,), (3,)), ((2, 1), (1, 2)), ((1, 2), (2,)), ((2, 0), (1, 2)))
+
+
+def encode_block(b, enc):
+    if enc == "padded-view":  # non-contiguous window of a larger buffer
+        big = np.full(tuple(n + 2 for n in b.shape), 99, dtype=b.dtype)
+        sel = tuple(slice(1, -1) for _ in b.shape)
+        big[sel] = b
+        return big[sel]
+    if enc == "fortran":
+        return np.asfortranarray(b)
+    if enc == "neg-stride-view":
+        rev = tuple(slice(None, None, -1) for _ in b.shape)
+        return b[rev].copy()[rev]
+    if enc == "read-only":
+        b = b.copy()
+        b.flags.writeable = False
+        return b
+    return b
+
+
+def gen_asm_enc(tier):
+    def gen():
+        for chy, chx in ENC_LAYOUTS:
+            nt = len(chy) * len(chx)
+            for mask in range(1, 1 << nt):
+                for cfg in CFGS:
+                    for dt in ("i2", "f4"):
+                        for enc in ENCODINGS:
+                            yield (chy, chx, mask, cfg, dt, enc)
+
+    return gen
+
+
+def run_asm_enc(case):
+    chy, chx, mask, cfg, dt, enc = case
+    nt = len(chy) * len(chx)
+    states = tuple(dt if mask >> t & 1 else None for t in range(nt))
+    plain, V, P, axis, full = mosaic(chy, chx, states, cfg, extremes=True)
+    _, pre, suf = CFGS[cfg]
+    C = np.dtype(DT[dt])
+    keys = list(plain)
+    if enc == "reversed-dict":
+        keys = keys[::-1]
+    blocks = {}
+    for k in keys:
+        kk = (np.int64(k[0]), np.int32(k[1])) if enc == "numpy-int-keys" else k
+        blocks[kk] = encode_block(plain[k], enc)
+    chunks = ([*chy], [*chx]) if enc == "list-chunks" else (chy, chx)
+    blocks0 = {k: v.copy() for k, v in blocks.items()}
+    ids0 = [(k, id(v)) for k, v in blocks.items()]
+    r = R(outcome=f"{enc}:{cfg}:{dt}", nontrivial=enc != "plain")
+    key = f"BlockAssembler:block-encoding:{enc}:{cfg}"
+    st, asm = call(BlockAssembler, blocks, chunks, axis=axis)
+    if st != "ok":
+        return r.fail(f"{key}:raises:constructor", f"{case}: BlockAssembler(...) raised {asm}")
+    ref = BlockAssembler(plain, (chy, chx), axis=axis)
+    allp = tuple(slice(None) for _ in pre)
+    alls = tuple(slice(None) for _ in suf)
+    H, W = full[axis], full[axis + 1]
+    Edef = expected_full(V, P, math.nan if C.kind == "f" else 0.0)
+    reqs = [
+        ("extract", lambda a: a.extract(), Edef, C),
+        ("window", lambda a: a[(*allp, slice(0, H), slice(1, W), *alls)], Edef[(*allp, slice(0, H), slice(1, W))], C),
+        ("row", lambda a: a[(*allp, H - 1, slice(None), *alls)],
+         Edef[np_index((*allp, H - 1, slice(None), *alls), axis, full)], C),
+        ("fill--1", lambda a: a.extract(-1), expected_full(V, P, -1.0), C),
+        ("f8", lambda a: a.extract(dtype="float64"), expected_full(V, P, math.nan), np.dtype("float64")),
+        ("planes", lambda a: np.stack([a[p] for p in a.planes_yx()]),
+         np.stack([Edef[np_index(p, axis, full)] for p in ref.planes_yx()]), C),
+    ]
+    if tuple(asm.shape) != full or np.dtype(asm.dtype) != C:
+        r.fail(f"{key}:shape-dtype", f"{case}: shape {asm.shape} dtype {asm.dtype}; want {full} {C}")
+    for rname, fn, exp, must in reqs + reqs[:2]:  # the first two again after results were overwritten
+        st, got = call(fn, asm)
+        if st != "ok":
+            r.fail(f"{key}:{rname}:raises", f"{case}: {rname} raised {got}")
+            continue
+        want = fn(ref)
+        if not same_values(got, exp) or got.dtype != must:
+            r.fail(f"{key}:{rname}:values", f"{case}: {rname} -> {got.dtype} {got.tolist()}; numpy mosaic {exp.tolist()}")
+        elif not _same_array(got, want):
+            r.fail(f"{key}:{rname}:differs-from-plain-blocks", f"{case}: {rname} differs from the same blocks given plain")
+        if rname != "planes" and (any(np.shares_memory(got, b) for b in blocks.values()) or not got.flags.writeable):
+            r.fail(f"{key}:{rname}:result-aliases-a-block", f"{case}: result of {rname} shares memory with a block "
+                                                            f"or is read-only (writeable={got.flags.writeable})")
+        elif got.flags.writeable:
+            got[...] = 55  # caller's own array
+    # inputs are the caller's: same dict entries, same values, same chunk lists
+    if [(k, id(v)) for k, v in blocks.items()] != ids0:
+        r.fail(f"{key}:callers-dict-modified", f"{case}: the blocks mapping was changed")
+    for k, v in blocks.items():
+        if not np.array_equal(v, blocks0[k], equal_nan=True):
+            r.fail(f"{key}:callers-block-modified", f"{case}: block {k} was {blocks0[k].tolist()} is {v.tolist()}")
+            break
+    if enc == "list-chunks" and (chunks[0] != [*chy] or chunks[1] != [*chx]):
+        r.fail(f"{key}:callers-chunks-modified", f"{case}: chunk lists became {chunks}")
+    if enc == "numpy-int-keys":  # one input class, one key (the numpy integer reaches the tile lookup)
+        for f in r.fails:
+            f.key = "BlockAssembler:block-encoding:numpy-int-index-as-block-key"
+    return r
+
+
+# ---- slice: degenerate rectangles (outside the stated domain): observations only ----------------
+def gen_degenerate(tier):
+    def gen():
+        for base in ((0, 5), (5, 0), (0, 0)):
+            yield ("T", base, (2, 2))
+        for ch in (((), (2, 3)), ((2, 3), ()), ((0,), (2,)), ((0, 0), (0,))):
+            yield ("V", ch)
+
+    return gen
+
+
+def run_degenerate(case):
+    kind = case[0]
+    r = R(outcome=f"degenerate:{kind}", nontrivial=False, counts={})
+    st, T = call(lambda: Tiles(case[1], case[2]) if kind == "T" else VariableSizedTiles(case[1]))
+    name = "Tiles" if kind == "T" else "VariableSizedTiles"
+    if st != "ok":
+        r.counts[f"obs:{name}:empty-rectangle:constructor:raises-{T}"] = 1
+        return r
+    for op, fn in (("shape", lambda: yx_of(T.shape)), ("chunks", lambda: T.chunks), ("[:, :]", lambda: T[:, :]),
+                   ("crop[:, :]", lambda: T.crop((slice(None), slice(None))))):
+        st, got = call(fn)
+        r.counts[f"obs:{name}:empty-rectangle:{op}:{'raises-' + str(got) if st != 'ok' else 'returns'}"] = 1
+    return r
+
+
 # ---------------------------------------------------------------------------------------------
 def slices(tier):
     tl = gen_tilings(tier)
@@ -1401,6 +1711,11 @@ def slices(tier):
         e1.Slice("tiling-index", tl, run_index,
                  "Tiles base x tile and VariableSizedTiles compositions: every tile index (pos/neg/Index2d/out of "
                  "range), painted partition, tile_shape, chunks, locate for every pixel"),
+        e1.Slice("tiling-large", gen_large(tier), run_index,
+                 "1800-chunk / 3077-tile / 60x50-chunk tilings (70 200 px axes): every tile, every pixel located",
+                 shards=8),
+        e1.Slice("tiling-degenerate", gen_degenerate(tier), run_degenerate,
+                 "empty rectangles (base 0 on an axis, empty chunk tuples): observations only", shards=1),
         e1.Slice("tiling-crop", tl, crop_,
                  "same tilings: every non-empty block of tiles under every slice spelling; crop vs fresh tiling"),
         e1.Slice("tiling-clip", tl, clip_,
@@ -1418,6 +1733,10 @@ def slices(tier):
         e1.Slice("asm-mixed-dtype", gen_asm_mixed(tier), run_asm_mixed,
                  "blocks of different dtypes in one assembler: every ordered pair of 11 dtypes (and triples) x every "
                  "insertion order of the mapping, values at each dtype's extremes, every window; exact python mosaic"),
+        e1.Slice("asm-block-encoding", gen_asm_enc(tier), run_asm_enc,
+                 "same blocks as padded / Fortran / negative-stride views, read-only, list chunks, reversed dict, "
+                 "numpy-int keys x 4 layouts (incl. single covering block, zero-length chunk) x subsets x 4 axis configs; "
+                 "numpy oracle + differential vs plain blocks + no aliasing + inputs unchanged"),
         e1.Slice("asm-history", gen_asm_hist(tier), run_asm_hist,
                  "call histories on ONE assembler: every single request, ordered pair and triples from a menu of 8 "
                  "requests x block-dtype/presence scenes x {2-d, time+yx}; each answer vs a fresh instance and vs numpy"),
